@@ -5,6 +5,8 @@ package main
 // independent RFC 6455 + 7692 receiver (the property oracle), and record the case for the Coq model.
 
 import (
+	"bytes"
+	"compress/flate"
 	"errors"
 	"fmt"
 	"io"
@@ -12,6 +14,7 @@ import (
 	"sort"
 	"time"
 
+	kflate "github.com/klauspost/compress/flate"
 	"github.com/lxzan/gws"
 )
 
@@ -535,4 +538,32 @@ func collectUtf8Candidates(stream []byte, o specOutcome, add func([]byte)) {
 // magnitude above this.
 func allocBudget(limit, streamLen int) uint64 {
 	return uint64(8*limit) + (4 << 20) + uint64(2*streamLen)
+}
+
+// d18: the pinned klauspost/compress v1.17.5 inflater reports a clean end of stream when the input runs out while it
+// reads the extra bits of a distance code (inflate_gen.go: f.err = err, not noEOF(err)); compress/flate and zlib report
+// the truncation.  gws then delivers the truncated inflation as a message.  Returns true when a failed inflate of the
+// reference receiver is exactly that case: compress/flate says io.ErrUnexpectedEOF, the pinned inflater says nil.
+func d18(o specOutcome) bool {
+	for _, r := range o.Inflates {
+		if r.OK {
+			continue
+		}
+		_, e1 := io.ReadAll(flate.NewReaderDict(bytes.NewReader(r.Src), r.Dict))
+		_, e2 := io.ReadAll(kflate.NewReaderDict(bytes.NewReader(r.Src), r.Dict))
+		if errors.Is(e1, io.ErrUnexpectedEOF) && e2 == nil {
+			return true
+		}
+	}
+	return false
+}
+
+// judgeStream = judgeInbound plus the D18 classification (known finding); skipCase: no model case for this stream (the
+// model's inflate oracle is the RFC 1951 one)
+func judgeStream(o specOutcome, obs inObs) (why, sig string, skipCase bool) {
+	why, sig = judgeInbound(o, obs)
+	if why != "" && (sig == "events-differ" || sig == "fail-status") && d18(o) {
+		return "a compressed message whose DEFLATE stream is cut inside the extra bits of a distance code is delivered (truncated) instead of failing the connection: " + why, "flate-truncated-stream-accepted", true
+	}
+	return why, sig, false
 }
